@@ -460,6 +460,15 @@ def run_shard(pmod, tier, seed, shard, nshards, budget_s):
                 st.samples.append({"surface": surf.name, "input": surf.describe(x), "impl": wire.jsonable(i), "model": wire.jsonable(m)})
             if surf.agree(x, i, m):
                 continue
+            if i[0] == "EXC" and str(i[1]).startswith(("TIMEOUT", "KILLED")):
+                # a resource outcome (time limit, kill) must REPRODUCE to count: a genuine hang or blow-up is deterministic,
+                # a slow moment of a loaded machine is not (false-alarm guard; the number of such moments is in the evidence)
+                i2 = surf.impl(x)
+                m2 = surf.model(rn, x)
+                if not (m2[0] == "EXC" and m2[1] == "EUndefined") and surf.agree(x, i2, m2):
+                    st.bump("transient_resource_outcome_not_reproduced")
+                    continue
+                i, m = i2, m2
             # divergence: shrink, classify
             def still(c):
                 ii, mm = surf.impl(c), surf.model(rn, c)
